@@ -17,6 +17,16 @@ CHECKS = {
               'and the real reader (EbDecBitstreamUnit.h/EbDecBitReader.h) on thousands of generated op lists plus an exhaustive small space; the property is also evaluated directly on the real coder\'s outputs.'),
         note=('Trusted: Coq kernel; extraction (ExtrOcamlBasic) + OCaml driver; gcc. The model has unbounded-precision low/dif; that the 32-bit windows, the pre-carry buffer and carry propagation of the C implement it '
               'is established by the byte-exact correspondence (not by a refinement theorem). Validity of adapted tables (ops_ok) is a hypothesis decided on every generated case by the extracted ops_okb.')),
+    'C23': dict(
+        category='proof', design_ref='DESIGN.md §6 C23',
+        technique='Coq invariant proofs over all step sequences (deque-level model) + ring-level executable model run in lockstep with the real code, one critical section at a time',
+        text=('srm_conservation / srm_no_lost_wakeup / srm_sem_consistent / srm_posting_order: for every sequence of enabled atomic steps (= every interleaving of any number of threads), any number of objects and FIFOs, '
+              'a muxing queue never loses or duplicates an object, never leaves an object queued while a process waits, keeps each FIFO semaphore equal to its unclaimed items, and delivers in posting order to a single consumer. '
+              'The ring-level model (circular buffers with head/tail/NULL-slot test, live counts, release enable, shutdown) is executed step for step against the real EbSystemResourceManager.c (harness #includes the .c, '
+              'so every critical section is driven individually under a seeded scheduler); result and complete structure dump must agree after every step, and the spec predicates (exclusive hand-out, conservation, order, '
+              'wake-up, release exactly at last reference, shutdown) are evaluated on the real structure.'),
+        note=('Trusted: Coq kernel; extraction + OCaml driver; atomicity of the mutex-protected sections and POSIX semaphore semantics; gcc. The refinement ring layer -> deque layer is checked by the lockstep run, not yet proved; '
+              'live counts / shutdown are in the ring model only. Threads blocked in get_empty are not woken by shutdown on the pinned tree (documented baseline behaviour, not exercised as a violation).')),
 }
 
 NOT_BUILT_REASON = 'check not built yet in this development (work in progress); no claim is made'
